@@ -8,15 +8,15 @@ ALL = ["C%02d" % i for i in range(1, 21)]
 # id -> (engine, level, text, note, technique, design_ref)
 CHECKS = {
  "C01": ("hostile+raceserver+wire", "exploration",
-   "48 (quick) / 2560 (thorough) PRNG-drawn chains over all 15 built-in plugins (valid arguments, any subset/order, half dual-stack, bound/unbound listener), each in a fresh server process inside a private network namespace and fed a history of 500-700 datagrams (stateful client scripts incl. the wire-only shapes, retransmissions, grammar-generated and mutated datagrams, empty and 65507-byte datagrams, in-place rewrites of refreshing lease files) plus canaries; oracle: process alive, handling returned (lock-parked goroutine in the SIGQUIT dump = wedged), canary handled, at most one reply (UDP capture + sniffed frames). A quarter of the processes run at debug log level, an eighth each at warning and error; a slice of the histories runs against a GOARCH=386 build of the whole server (chains without range: no cgo there). Plus a slice of the concurrent -race workload (two first link-level replies in flight in a fresh process) and, in the thorough tier, the real cmds/coredhcp binary over veth (also on an alternate port, without CAP_NET_RAW and with a late listen address) (also with stdio on a terminal at debug level, without listen keys, and sent SIGHUP) and 900 prefix-plugin instances that are driven again after a real wait of one hour, when every lease has run out.",
+   "48 (quick) / 2560 (thorough) PRNG-drawn chains over all 15 built-in plugins (valid arguments, any subset/order, half dual-stack, bound/unbound listener), each in a fresh server process inside a private network namespace and fed a history of 500-700 datagrams (stateful client scripts incl. the wire-only shapes, retransmissions, grammar-generated and mutated datagrams, empty and 65507-byte datagrams, in-place rewrites of refreshing lease files, relays whose address lies inside the range being served) plus canaries; oracle: process alive, handling returned (in the SIGQUIT dump a goroutine parked on a lock below coredhcp code = wedged, one still running inside coredhcp code after the whole watchdog period = spinning), canary handled, at most one reply (UDP capture + sniffed frames). A quarter of the processes run at debug log level, an eighth each at warning and error; a slice of the histories runs against a GOARCH=386 build of the whole server (chains without range: no cgo there). Plus a slice of the concurrent -race workload (two first link-level replies in flight in a fresh process) and, in the thorough tier, the real cmds/coredhcp binary over veth (also on an alternate port, without CAP_NET_RAW and with a late listen address) (also with stdio on a terminal at debug level, without listen keys, and sent SIGHUP) and 900 prefix-plugin instances that are driven again after a real wait of one hour, when every lease has run out.",
    "blocking is observed through a watchdog plus lock-parked-goroutine classification; anything else that stalls is inconclusive.",
    "crash/hang monitor over supervised server processes (exit status, goroutine dump, canary, reply counter) + Go race detector on the concurrent slice", "4 C01, 10"),
  "C02": ("range+rangeconc", "exploration",
-   "256 (quick) / 3072 (thorough) sequential request histories through the real HandleMsg4 into the range plugin on a real sqlite file (alone or behind lease_time), with restarts on the same file (same, wider, and shrunk/moved range that leaves stored leases outside: refusing to start or serving only in-range addresses are both fine), clients whose hardware addresses differ only by trailing zero bytes, built-in plugins (netmask, ipv6only, router, dns) behind range with requests listing option 108, lease times raised and lowered at restarts, a write-locked database while a bound client renews and while a new client has two datagrams in flight, pauses that let short leases run out followed by exhaustion, every reply decided by a lease model (in range, injective, sticky, lease time, drop iff full); plus 160 / 3200 concurrent burst histories (one goroutine per datagram, pooled buffers, -race) checked for linearizability against the same model with porcupine.",
+   "256 (quick) / 3072 (thorough) sequential request histories through the real HandleMsg4 into the range plugin on a real sqlite file (alone or behind lease_time), with restarts on the same file (same, wider, and shrunk/moved range that leaves stored leases outside: refusing to start or serving only in-range addresses are both fine), clients whose hardware addresses differ only by trailing zero bytes, clients with other hardware types (InfiniBand: empty hardware address) and client identifiers that change or equal another client's hardware address, relay addresses inside the range (also the one the pool would hand out next), built-in plugins (netmask, ipv6only, router, dns) behind range with requests listing option 108, lease times raised and lowered at restarts, a write-locked database while a bound client renews and while a new client has two datagrams in flight, pauses that let short leases run out followed by exhaustion, every reply decided by a lease model (in range, injective, sticky, lease time, drop iff full); plus 160 / 3200 concurrent burst histories (one goroutine per datagram, pooled buffers, -race) checked for linearizability against the same model with porcupine.",
    "no lease expiry exists in the code, so stickiness is over the whole history; pools above 4097 addresses are not exhausted; schedules are those the Go scheduler produced.",
    "online reference-model monitor + porcupine linearizability check + Go race detector", "4 C02"),
  "C03": ("range+rangekill", "fault_enumeration",
-   "every prefix of every request history is a crash point: after every reply the database (and journal) is copied and reopened by a fresh plugin instance, rows are compared with the model (none lost/changed/duplicated, stored expiry >= what the reply promised) and clients are probed (all clients with unusual hardware-address lengths, incl. pairs that differ only by trailing zero bytes); renewals after real pauses and byte-identical datagrams repeated 550-950 ms apart (the stored expiry must follow every copy), a database stalled for 3.5 s while one client sends two requests; a child process is SIGKILLed after acknowledged replies or microseconds into the next request and the database it left is reopened; thorough repeats the workload under AddressSanitizer (cgo sqlite path).",
+   "every prefix of every request history is a crash point: after every reply the database (and journal) is copied and reopened by a fresh plugin instance, rows are compared with the model (none lost/changed/duplicated, stored expiry >= what the reply promised) and clients are probed (all clients with unusual hardware-address lengths, incl. pairs that differ only by trailing zero bytes); renewals after real pauses and byte-identical datagrams repeated 550-950 ms apart (the stored expiry must follow every copy), a database stalled for 3.5 s while one client sends two requests; thorough adds pauses of 125 s before the pool is exhausted; a child process is SIGKILLed after acknowledged replies or microseconds into the next request and the database it left is reopened; thorough repeats the workload under AddressSanitizer (cgo sqlite path).",
    "process kills and file copies, not power loss; expiry is compared with a one-sided bracket (t_before_call + promised lease - 1 s).",
    "fault enumeration over crash points (copy+reopen after every reply, SIGKILL of a child at acknowledged points) with a reference-model oracle; ASan in the thorough tier", "4 C03"),
  "C04": ("alloc+allocconc", "exploration",
@@ -24,7 +24,7 @@ CHECKS = {
    "math/big address arithmetic is the reference; concurrency coverage is what the Go scheduler produced (overlap counts in the evidence); porcupine timeouts are inconclusive.",
    "online reference-model monitor + porcupine linearizability check of recorded histories + Go race detector", "4 C04-C07"),
  "C05": ("alloc", "exploration",
-   "Same sequential histories; oracle: every returned block is an aligned block of the pool with the right mask length (hints right behind the pool over-weighted), refusal iff full (ErrNoAddrAvail only), and the end-of-history drain returns exactly the complement of the outstanding set (in = out + held). Includes a 3-call probe of the full IPv4 range, capacity probes of 2^21..2^25-block pools and a 2^33-block pool; concurrent histories with colliding hints (porcupine) decide that capacity stays exact under concurrency.",
+   "Same sequential histories; oracle: every returned block is an aligned block of the pool with the right mask length (hints right behind the pool over-weighted), refusal iff full (ErrNoAddrAvail only), and the end-of-history drain returns exactly the complement of the outstanding set (in = out + held). Includes a 3-call probe of the full IPv4 range, capacity probes of 2^21..2^25-block pools, a 2^33-block pool and pools no bitmap can hold (2^56 blocks and more: refused, or served); concurrent histories with colliding hints (porcupine) decide that capacity stays exact under concurrency.",
    "pools above 2^16 blocks are not drained; the full-range probe accepts a constructor that refuses the pool.",
    "online reference-model monitor with conservation audit at quiescent points", "4 C04-C07"),
  "C06": ("alloc+allocconc", "exploration",
@@ -36,35 +36,35 @@ CHECKS = {
    "hints carrying a mask that is not 128 bits are only checked for C05.",
    "online reference-model monitor over generated hints", "4 C04-C07"),
  "C08": ("prefix+prefixconc", "exploration",
-   "512 (quick) / 153600 (thorough) message histories (1-6 clients, every DUID kind plus near-duplicate identifiers, 0-3 IA_PD x 0-3 hints of every class incl. canonical sub-prefixes of a block and 60-140-hint renewals, 0-2 relay layers, retransmissions) as wire bytes through HandleMsg6 into the prefix plugin (pool written canonically or, in a third of the histories, as address/length with host bits set; a quarter of the histories at debug log level); a per-client prefix model decides every reply (IA_PD count and IAIDs, prefix or NoPrefixAvail, in pool, aligned, length, lifetimes, disjoint across clients); concurrent bursts are checked with porcupine under -race. Thorough adds 900 plugin instances with small pools (most of them exhausted, clients with several leases) that get a second history after a real wait of 3615 s, when every lifetime handed out has run out: a lapsed block may go to anyone, but never to two clients while the new lifetimes run.",
+   "512 (quick) / 153600 (thorough) message histories (1-6 clients, every DUID kind plus near-duplicate identifiers, 0-3 IA_PD x 0-3 hints of every class incl. canonical sub-prefixes of a block and canonical prefixes wider than the allocation size (around the client's own lease or anywhere) and 60-140-hint renewals, 0-2 relay layers, retransmissions) as wire bytes through HandleMsg6 into the prefix plugin (pool written canonically or, in a third of the histories, as address/length with host bits set; a quarter of the histories at debug log level); a per-client prefix model decides every reply (IA_PD count and IAIDs, prefix or NoPrefixAvail, in pool, aligned, length, lifetimes, disjoint across clients); concurrent bursts are checked with porcupine under -race. Thorough adds 900 plugin instances with small pools (most of them exhausted, clients with several leases) that get a second history after a real wait of 3615 s, when every lifetime handed out has run out: a lapsed block may go to anyone, but never to two clients while the new lifetimes run.",
    "lifetimes are checked as 0 < preferred <= valid <= 1h; which free block is chosen is never asserted.",
    "online reference-model monitor + porcupine linearizability check + Go race detector", "4 C08-C09"),
  "C09": ("prefix+prefixconc", "exploration",
-   "same histories; oracle: an IA_PD asking for exactly a held prefix gets it, a hint-less IA_PD (no IAPrefix or ::/0) gets every held prefix back, a message that only asks for what is held is given no additional block, lifetimes do not shrink below what remained (one-sided bracket), and at the end fresh clients drain the pool: exactly N - |delegated blocks| must be free; slow-neighbour probes make a plain request wait > 0.6 s behind a 2200-hint message of a client with 48 000 leases (lifetimes stay <= 1 h); the real binary sent SIGHUP must either end or keep every holder's prefix; long-gap probes let a holder come back after exactly 253..258 and 65533..65538 IA_PDs of another client.",
+   "same histories; oracle: an IA_PD asking for exactly a held prefix gets it, a hint-less IA_PD (no IAPrefix or ::/0) gets every held prefix back, a message that only asks for what is held is given no additional block, lifetimes do not shrink below what remained (one-sided bracket), and at the end fresh clients drain the pool: exactly N - |delegated blocks| must be free; slow-neighbour probes make a plain request wait > 0.6 s behind a 2200-hint message of a client with 48 000 leases (lifetimes stay <= 1 h); the real binary sent SIGHUP must either end or keep every holder's prefix; thorough adds instances driven again after 75 s of silence; long-gap probes let a holder come back after exactly 253..258 and 65533..65538 IA_PDs of another client.",
    "'for as long as the server runs' = the length of the history (no expiry in the code; the one-hour-later histories apply stickiness to what was delegated after the wait); length-only hints are outside the statement.",
    "online reference-model monitor with conservation audit + porcupine linearizability check", "4 C08-C09"),
  "C10": ("file", "exploration",
-   "288 (quick) / 11520 (thorough) cases, each in a fresh server process: generated lease files (up to > 64 KiB files and > 64 KiB lines) vs an independent reference parser (accept iff well-formed; every listed MAC - also when only the relay knows it - served its last listed address, unlisted clients and requests without IA_NA byte-identical to the chain without the plugin), autorefresh sequences of good/bad updates of self-identifying versions - equal-length single-pwrite rewrites and atomic replacement by rename, with or without a hard link keeping the old file alive, and a version without final newline that is then grown in place (continuing its last line with a newer version: must be served; a record glued onto its last record: must be refused) - (old-or-new, monotone, all-or-nothing, bounded progress 200 polls / 10 s without any second write, malformed leaves the old mapping), large-then-small back-to-back rewrites (must end on the newer), dual-stack processes whose DHCPv4 and DHCPv6 instances refresh independently (also with one file listing nobody), and two instances under one protocol, each serving its own file.",
+   "288 (quick) / 11520 (thorough) cases, each in a fresh server process: generated lease files (up to > 64 KiB files and > 64 KiB lines) vs an independent reference parser (accept iff well-formed; every listed MAC - also when only the relay knows it - served its last listed address, unlisted clients and requests without IA_NA byte-identical to the chain without the plugin), autorefresh sequences of good/bad updates of self-identifying versions - equal-length single-pwrite rewrites and atomic replacement by rename, with or without a hard link keeping the old file alive, with a modification time older than the version in force, or followed 0-1200 us later by an in-place edit of the new file, and a version without final newline that is then grown in place (continuing its last line with a newer version: must be served; a record glued onto its last record: must be refused) - (old-or-new, monotone, all-or-nothing, bounded progress 200 polls / 10 s without any second write, malformed leaves the old mapping), large-then-small back-to-back rewrites (must end on the newer), dual-stack processes whose DHCPv4 and DHCPv6 instances refresh independently (also with one file listing nobody), and two instances under one protocol, each serving its own file.",
    "'eventually' restated as bounded progress; deleting the file and creating it again (a window without the file) and unclassified line shapes are not driven; stdlib net.ParseMAC/ParseIP define 'every spelling'.",
    "reference-parser monitor + differential (with/without plugin) oracle + version-trace monitor under autorefresh", "4 C10"),
  "C11": ("match4+raceserver+wire", "exploration",
-   "8 plugin chains (8 processes quick / 320 thorough), each answering the full 256-opcode x 23-message-type-shape matrix, 240 answered requests with freshly drawn irrelevant options (PXE / HTTP-boot vendor classes with machine identifiers, ...), systematic hlen 0..17+, option 61/82 lengths 1..255 (also split over several instances) and 1500/6000 generated and mutated datagrams inside a private network namespace; UDP writes (capture hook) and sniffed link-level frames are the replies; oracle = the statement's table. A -race slice sends the same client message through two relays at once (each copy must get its own giaddr/option 82 back); the real binary is started on an alternate port (dual-stack; DHCPv4 messages of any opcode wrapped in DHCPv4-over-DHCPv6 queries must stay unanswered), with replies larger than the MTU, without CAP_NET_RAW and with a late listen address (2 cases quick / 16 thorough) and every reply it does send must mirror its request; thorough adds the main history of the real binary over veth.",
+   "8 plugin chains (8 processes quick / 320 thorough), each answering the full 256-opcode x 23-message-type-shape matrix, 240 answered requests with freshly drawn irrelevant options (PXE / HTTP-boot vendor classes with machine identifiers, ...), systematic hlen 0..17+, option 61/82 lengths 1..255 (also split over several instances) and 1500/6000 generated and mutated datagrams inside a private network namespace; UDP writes (capture hook) and sniffed link-level frames are the replies; oracle = the statement's table. A -race slice sends the same client message through two relays at once (each copy must get its own giaddr/option 82 back); the real binary is started on an alternate port (dual-stack; DHCPv4 messages of any opcode wrapped in DHCPv4-over-DHCPv6 queries must stay unanswered), with replies larger than the MTU, without CAP_NET_RAW, with a late listen address and when a request names one of the server host's own addresses as giaddr (2 cases quick / 16 thorough), and every reply it does send must mirror its request; thorough adds the main history of the real binary over veth.",
    "codec verdict defines 'unparseable'; zero-length options 61/82 and hlen > 16 are no-crash-only; that a reply is sent at all is C13.",
    "decision-table monitor over captured replies and sniffed frames", "4 C11"),
  "C12": ("match6+raceserver+wire", "exploration",
-   "5 chains x bound/unbound listener, each answering the matrix of 254 message types x client-id x rapid-commit (plain and under 0-4 Relay-Forward layers carrying Interface-ID, Remote-ID, Echo Request lists of any option codes, Subscriber-ID, Relay-ID, Link-Address, Relay Source Port; global and link-local sources, two arrival links), RELAY-REPL envelopes around every supported message, plus 1200/5000 generated and mutated datagrams; oracle = reply-type table, xid, client-id, per-layer relay mirror, innermost = stateless chain's answer to the un-relayed message, destination = source, pin iff link-local. Processes run at debug, info, warning and error log level. A -race slice checks the pin of link-local replies while requests arrive on two interfaces at once; the real binary's variants must leave DHCPv4-over-DHCPv6 queries (type 20) unanswered; thorough adds the real binary's main history over veth.",
+   "5 chains x bound/unbound listener, each answering the matrix of 254 message types x client-id x rapid-commit (plain and under 0-4 Relay-Forward layers carrying Interface-ID, Remote-ID, Echo Request lists of any option codes, Subscriber-ID, Relay-ID, Link-Address, Relay Source Port; global and link-local sources, two arrival links), RELAY-REPL envelopes around every supported message, plus 1200/5000 generated and mutated datagrams; oracle = reply-type table, xid, client-id, per-layer relay mirror, innermost = stateless chain's answer to the un-relayed message, destination = source, pin iff link-local. Processes run at debug, info, warning and error log level. A -race slice checks the pin of link-local replies while requests arrive on two interfaces at once; the real binary's variants must leave DHCPv4-over-DHCPv6 queries (type 20) unanswered and answer a relay agent that talks to them from the loopback address; thorough adds the real binary's main history over veth.",
    "Relay-Forward chains with a Relay-Reply layer further in are no-crash-only; inner-equality is only asserted for stateless chains.",
    "decision-table + differential (relayed vs plain) monitor over captured replies", "4 C12"),
  "C13": ("order+hostile", "exploration",
-   "synthetic plugins logging object identities, markers and the serialisation of the request they received; all 781 behaviour chains of length 0-4 (3906 up to length 5 in the thorough tier) x both protocols + random mixes of dual/v4-only/v6-only/failing/nil/unknown plugins (also listed only for the other protocol), through plugins.LoadPlugins (config value or YAML via config.Load, also with a plugin merged into the previous list item or a setup that returns a handler together with its error: start-up must abort) and the real HandleMsg4/6, with relayed and link-level-answered requests (the frame on the wire must be the response returned last); every chain-child engine wraps each loaded handler to assert 'nil only with stop' (streamed before the next handler runs), and 32/768 hostile histories over random chains of all built-in plugins exercise it; the real binary is also started with a listen address that is only assigned 600 ms later: it may give up or come up, but a reply must carry exactly what the listed plugins configure, once.",
+   "synthetic plugins logging object identities, markers and the serialisation of the request they received; all 781 behaviour chains of length 0-4 (3906 up to length 5 in the thorough tier) x both protocols + random mixes of dual/v4-only/v6-only/failing/nil/unknown plugins (also listed only for the other protocol), through plugins.LoadPlugins (config value or YAML via config.Load, also with a plugin merged into the previous list item or a setup that returns a handler together with its error: start-up must abort), handlers that answer a relayed request with a complete Relay-Reply of their own (sent as returned) and the real HandleMsg4/6, with relayed and link-level-answered requests (the frame on the wire must be the response returned last); every chain-child engine wraps each loaded handler to assert 'nil only with stop' (streamed before the next handler runs), and 32/768 hostile histories over random chains of all built-in plugins exercise it; the real binary is also started with a listen address that is only assigned 600 ms later: it may give up or come up, but a reply must carry exactly what the listed plugins configure, once.",
    "exhaustive over the five behaviours up to the stated length; identities are pointer values printed by the plugins themselves.",
    "invocation-trace monitor (online checker of the order/at-most-once/pass-through specification)", "4 C13"),
  "C14": ("sid", "exploration",
-   "64 (quick) / 76800 (thorough) accepted server_id spellings, each hosted in a fresh server process; DHCPv6: all 256 message types x 10 kinds of Server Identifier (incl. a copy of the message's own client identifier) x relay depth 0-2 and around the hop-count limit (8..40) decided by the RFC 8415 section 16 table; DHCPv4: siaddr x option 54 x DISCOVER/REQUEST matrix, with relay agent information that may carry a Server Identifier Override sub-option naming this or another server; every answered message must carry exactly this server's identifier; so must every OFFER/ACK of the real binary's environment variants (alternate port, replies larger than the MTU at link level, no CAP_NET_RAW, late address).",
+   "64 (quick) / 76800 (thorough) accepted server_id spellings, each hosted in a fresh server process; DHCPv6: all 256 message types x 10 kinds of Server Identifier (incl. a copy of the message's own client identifier) x relay depth 0-2 and around the hop-count limit (8..40) decided by the RFC 8415 section 16 table; DHCPv4: siaddr x option 54 x DISCOVER/REQUEST matrix, with relay agent information that may carry a Server Identifier Override sub-option naming this or another server; every answered message must carry exactly this server's identifier; so must every OFFER/ACK of the real binary's environment variants (alternate port, replies larger than the MTU at link level, no CAP_NET_RAW, late address), and a REQUEST naming another address of the server's interface stays unanswered.",
    "0.0.0.0 in option 54 is no-crash-only; types the server never answers are expected to stay unanswered.",
    "decision-table monitor over the full request matrix, one configuration per server process", "4 C14"),
  "C15": ("addr4+wire+raceserver", "exploration",
-   "the full 768-cell table (giaddr x ciaddr x broadcast flag x reply type incl. plugin-made NAK x yiaddr x bound/unbound x arrival link) with random hardware types, replies grown to 1458-1472 bytes in some repetitions (frames of 1500-1514 bytes are still link-level unicasts), 3 (quick) / 384 (thorough) repetitions with fresh addresses, inside a private network namespace: UDP destination/port/IP_PKTINFO at the server's WriteTo, link-level unicasts as real frames sniffed on veth peers (link, dst MAC, dst IP, ports, payload); the real cmds/coredhcp binary over two veth pairs (which link a reply leaves on; also listening on port 6767: relayed replies still go to giaddr:67, client replies to port 68; also without any listen key: replies leave on the arrival link); a -race slice with broadcast and link-level replies for requests arriving on two interfaces at once.",
+   "the full 768-cell table (giaddr x ciaddr x broadcast flag x reply type incl. plugin-made NAK x yiaddr x bound/unbound x arrival link) with random hardware types, replies grown to 1458-1472 bytes in some repetitions (frames of 1500-1514 bytes are still link-level unicasts), 3 (quick) / 384 (thorough) repetitions with fresh addresses, inside a private network namespace: UDP destination/port/IP_PKTINFO at the server's WriteTo, link-level unicasts as real frames sniffed on veth peers (link, dst MAC, dst IP, ports, payload); the real cmds/coredhcp binary over two veth pairs (which link a reply leaves on; also listening on port 6767: relayed replies still go to giaddr:67, client replies to port 68; also without any listen key, and listening on one specific address reached over the other link: replies leave on the arrival link); a -race slice with broadcast and link-level replies for requests arriving on two interfaces at once.",
    "hlen 6 on the link-level path; needs the namespace (otherwise inconclusive).",
    "decision-table monitor over the capture hook and an AF_PACKET sniffer; black-box run of the real binary", "4 C15, 10.6"),
  "C16": ("raceserver+rangeconc+prefixconc+allocconc+wire", "exploration",
@@ -76,15 +76,15 @@ CHECKS = {
    "values outside the wire range and repeated codes in DHCPv6 option request lists are outside the quantifier; nbp's stop is not asserted.",
    "differential reference-table monitor (with vs without the plugin), one configuration per server process", "4 C17"),
  "C18": ("config", "exploration",
-   "38400 (quick) / 7.7 million (thorough) YAML documents through config.Load in child processes inside the private network namespace: grammar documents stored under 13 different file names with exact expectation (plugins, arguments incl. template-like words such as ${mac}, $HOME, %h, listeners incl. multicast expansion over an interface set that contains multicast-but-not-broadcast interfaces (lo with the flag on, a tun device) and a link that is down, every decimal port spelling), documents with one injected rejection (incl. hex/binary/underscore/decimal-point ports; listen+interface with empty, list-valued and numeric interface values in either order), and text mutations (no-panic-only).",
+   "38400 (quick) / 7.7 million (thorough) YAML documents through config.Load in child processes inside the private network namespace: grammar documents stored under 13 different file names or delivered through a named pipe with exact expectation (plugins, arguments incl. template-like words such as ${mac}, $HOME, %h, listeners incl. multicast expansion over an interface set that contains multicast-but-not-broadcast interfaces (lo with the flag on, a tun device) and a link that is down, every decimal port spelling), documents with one injected rejection (incl. hex/binary/underscore/decimal-point ports; listen+interface with empty, list-valued and numeric interface values in either order), and text mutations (no-panic-only).",
    "lower-case plugin names; YAML re-typed scalars, out-of-range ports and unbracketed IPv6 are no-panic-only.",
    "reference-grammar monitor (must-load / must-reject / no-panic) with process-level crash detection", "4 C18"),
  "C19": ("setup", "exploration",
-   "2880 (quick) / 256000 (thorough) argument vectors over all 15 built-in plugins (valid, boundary, invalid values of every argument kind, cycling systematically through every pool value, arity 0-6), each in a fresh server process (a quarter at debug log level) through plugins.LoadPlugins: setup errors, or 40+ requests (for prefix also hints inside the configured pool) are survived and every reply parses, re-serialises byte-identically, carries the in-memory response's options, domain search lists that decode, and no DHCPv6 option longer than 65535 bytes; a handler that never returns (goroutine parked on a lock in the dump) is a violation; a slice of the lease-file engine hosts several instances of one plugin (dual-stack, twin, empty files).",
+   "2880 (quick) / 256000 (thorough) argument vectors over all 15 built-in plugins (valid, boundary, invalid values of every argument kind, cycling systematically through every pool value, arity 0-6), each in a fresh server process (a quarter at debug log level) through plugins.LoadPlugins: setup errors, or 40+ requests (for prefix also hints inside the configured pool) are survived and every reply parses, re-serialises byte-identically, carries the in-memory response's options, domain search lists that decode to as many names as were configured (labels of multi-byte characters included), and no DHCPv6 option longer than 65535 bytes; a handler that never returns (goroutine parked on a lock in the dump) is a violation; a slice of the lease-file engine hosts several instances of one plugin (dual-stack, twin, empty files).",
    "pools of 2^25..2^63 blocks (accepted with a warning, need terabytes of bitmap) are excluded as resource exhaustion; replies larger than a UDP datagram cannot leave the server and are not round-tripped; truncation that round-trips is an observation.",
    "crash monitor (process per configuration) + wire round-trip oracle", "4 C19"),
  "C20": ("arith", "exploration",
-   "8x10^6 (quick) / 9.6x10^8 (thorough) generated evaluations of Offset (both argument orders), AddPrefixes and the inverse law, each decided by a math/big reference; all p in 0..128, carry/borrow and overflow classes and pairs of IPv4-mapped addresses counted in the evidence; half of the evaluations pass their operands in two scratch buffers rewritten in place, and a byte is appended to the previous result before the next is compared (results are values of their own); the same evaluations on a GOARCH=386 build. Sampling of a 2^320 input space: 'held on what was explored'.",
+   "8x10^6 (quick) / 9.6x10^8 (thorough) generated evaluations of Offset (both argument orders), AddPrefixes and the inverse law, each decided by a math/big reference; all p in 0..128, carry/borrow and overflow classes and pairs of IPv4-mapped addresses counted in the evidence; half of the evaluations pass their operands in two scratch buffers rewritten in place, and a byte is appended to the previous result before the next is compared (results are values of their own); four callers evaluate concurrently, each with its own prefix lengths and buffers; the same evaluations on a GOARCH=386 build. Sampling of a 2^320 input space: 'held on what was explored'.",
    "math/big is the definition of the exact result; inputs are 16-byte addresses.",
    "runtime reference-model monitor (math/big) over generated inputs", "4 C20"),
 }
